@@ -106,7 +106,8 @@ class TreeGen:
         if k == 'atx':
             return ('atx', rng.randint(1, 6), self.inline(allow_break=False))
         if k == 'setext':
-            return ('setext', rng.randint(1, 2), self.inline())
+            # inside a quote (the stream for the recorded finding) the heading is one line, so that the respelling as an ATX heading says the same
+            return ('setext', rng.randint(1, 2), self.inline(allow_break=not in_quote))
         if k == 'hr':
             return ('hr',)
         if k == 'fence':
